@@ -80,7 +80,7 @@ def scenarios(tier, seed):
             for sup_name, sup in supports.items():
                 if not sup:
                     continue
-                for est in ["mle", "k2", "bdeu", "dirichlet_scalar", "dirichlet_array", "fit", "fit_update"]:
+                for est in ["mle", "k2", "bdeu", "dirichlet_scalar", "dirichlet_array", "fit", "dagfit", "fit_update"]:
                     k += 1
                     declared = ["data", "extra", "perm"][k % 3]
                     if sup_name == "no_childstate" and declared == "data" and est != "mle":
@@ -312,6 +312,18 @@ def run(desc, M):
         e = MaximumLikelihoodEstimator(model, df, **kw)
         cpds = [e.estimate_cpd(v, weighted=True) for v in nodes]
         cpds2 = e.get_parameters(weighted=True, n_jobs=1)
+    elif est == "dagfit":
+        # the same through a plain DAG (pgmpy.base.DAG.fit returns the fitted network)
+        from pgmpy.base import DAG
+        dag = DAG()
+        dag.add_nodes_from(nodes)
+        dag.add_edges_from([(p, v) for v in nodes for p in parents[v]])
+        fitted = dag.fit(df, estimator=MaximumLikelihoodEstimator, weighted=True, n_jobs=1, **kw)
+        if not M.check(set(fitted.nodes()) == set(nodes), "DAG.fit returns a network over all the DAG's nodes", detail=f"{sorted(fitted.nodes())} vs {nodes}"):
+            return
+        cpds = [fitted.get_cpds(v) for v in nodes]
+        cpds2 = None
+        M.check(fitted.check_model() is True, "fitted network validates")
     elif est == "fit":
         model.fit(df, estimator=MaximumLikelihoodEstimator, weighted=True, n_jobs=1, **kw)
         cpds = [model.get_cpds(v) for v in nodes]
@@ -407,7 +419,7 @@ def run(desc, M):
             num = wsum(a)
             den = wsum({p: a[p] for p in pa})
             kv = card_of(v)
-            if est in ("mle", "fit"):
+            if est in ("mle", "fit", "dagfit"):
                 # w(c) > 0 iff the parent configuration occurs in the support (weights are positive)
                 occurs = any(all(label(p, c[nodes.index(p)], dtype) == a[p] for p in pa) for c in sup)
                 want = num / den if occurs else M.const(Fraction(1, kv))
